@@ -257,6 +257,16 @@ def families(tier):
         if not any(o[0] == 'dispatch' for o in combo):
             continue
         yield 'C03', H2 + list(combo)
+    # C04: every short interleaving of registration, dispatch (known and unknown
+    # names) and enable/disable
+    ops4 = [('add', 'a'), ('add', 'c'), ('remove', 'a'), ('disable',), ('enable',),
+            ('dispatch', 'e', (1,)), ('dispatch', 'f', (2,)), ('dispatch', 'zzz', ()),
+            ('add', 'z')]
+    HZ = H2 + [('new', 'z', ['zzz'])]
+    for combo in itertools.product(ops4, repeat=n):
+        if not any(o[0] == 'dispatch' for o in combo) or ('disable',) not in combo:
+            continue
+        yield 'C04', HZ + list(combo) + [('enable',)]
     # C04: defer / release, with a raise or a nested disable at every position
     for nq in (1, 2, 3):
         evs = [('dispatch', 'e', (i,)) for i in range(nq)]
